@@ -509,7 +509,7 @@ CORPUS = [
 
 
 def run(tier, rng):
-    ntab, nopt, nrisky = (420, 6, 150) if tier == 'quick' else (1000, 32, 600)
+    ntab, nopt, nrisky = (420, 6, 150) if tier == 'quick' else (800, 32, 500)
     pairs = list(CORPUS)
     risky_flags = [True] * len(CORPUS)
     for k in range(ntab):
